@@ -262,8 +262,21 @@ def opReuseParse (args : List String) (impl : String) : Result :=
     | _, _ => noModel
   | _ => noModel
 
+/-- escsets: the JSON encoder's escape tables (filled by `init()` in Go) -/
+def opEscSets (impl : String) : Result :=
+  let row (f : Nat → Bool) : String := String.ofList ((List.range 128).map fun i => if f i then '1' else '0')
+  let model := row Json.Enc.jsonEscapeSet ++ "|" ++ row Json.Enc.htmlEscapeSet
+  -- oracle (C07): every control character, quote and backslash is escaped; with HTML escaping < > & too
+  let bad := (impl.splitOn "|").any (fun t => (t.toList.take 32).any (· != '1')) ||
+    (match impl.splitOn "|" with
+     | [j, h] => j.toList.getD 0x22 '0' != '1' || j.toList.getD 0x5c '0' != '1' ||
+                 h.toList.getD 0x3c '0' != '1' || h.toList.getD 0x3e '0' != '1' || h.toList.getD 0x26 '0' != '1'
+     | _ => true)
+  { model := some model, fails := if bad then ["C07 json-escape-table-misses-a-mandatory-escape"] else [] }
+
 def runLine (op : String) (impl : String) : Result :=
   match op.splitOn " " with
+  | "escsets" :: _ => opEscSets impl
   | "lru" :: args => opLRU args impl
   | "enc" :: args => opEnc args impl
   | "parse" :: args => opParse args impl
